@@ -29,10 +29,11 @@ Pools == <<
   [ty |-> WAny, init |-> I(1), ops |-> <<Op("=", S(<<115>>)), Op("=", ArrE(<<I(1)>>)), Op("=", Unit)>>]
 >>
 
-Aliases == <<"c", "a", "arr", "st", "cc", "par">>
+Aliases == <<"c", "a", "arr", "st", "cc", "par", "rp">>
 \* the cell reached through an alias
 Via(al) == CASE al = "c" -> V("c") [] al = "a" -> V("a") [] al = "arr" -> At(V("arr"), I(0))
              [] al = "st" -> Field(V("st"), "f") [] al = "cc" -> Deref(V("cc")) [] al = "par" -> V("c")
+             [] al = "rp" -> At(V("rp"), I(1))        \* [c; 3]: three references to the one cell
 
 Setup(p) == <<
   Set("c", MutE(p.ty, p.init)),
@@ -41,10 +42,11 @@ Setup(p) == <<
   Set("st", StructE(<< <<"f", V("c")>> >>)),
   Set("cc", MutE(WMut(p.ty), V("c"))),
   Set("clo", FnE(<<>>, p.ty, <<Ret(Deref(V("c")))>>)),
+  Set("rp", RepE(V("c"), I(3))),
   Set("other", MutE(p.ty, p.init))         \* a second cell with equal content: must stay untouched
 >>
 ReadAll == TupE(<<Deref(V("c")), Deref(V("a")), Deref(At(V("arr"), I(0))), Deref(Field(V("st"), "f")),
-                  Deref(Deref(V("cc"))), CallE(V("clo"), <<>>), Deref(V("other"))>>)
+                  Deref(Deref(V("cc"))), CallE(V("clo"), <<>>), Deref(At(V("rp"), I(2))), Deref(V("other"))>>)
 
 \* one step: the assignment (through the alias; "par" = inside a function that got the cell as argument)
 Step(p, al, op, i) ==
@@ -66,7 +68,7 @@ StepTyped(p, al, op, i) ==
 Hist1 == {[p |-> pi, steps |-> <<[al |-> al, op |-> oi]>>] :
             pi \in 1..Len(Pools), al \in 1..Len(Aliases), oi \in 1..30} 
 Valid(h) == \A s \in {h.steps[j] : j \in 1..Len(h.steps)} : s.op <= Len(Pools[h.p].ops)
-AliasSubset == IF Full THEN 1..Len(Aliases) ELSE {1, 3, 6}
+AliasSubset == IF Full THEN 1..Len(Aliases) ELSE {1, 3, 6, 7}
 Hist2 == {[p |-> pi, steps |-> <<[al |-> a1, op |-> o1], [al |-> a2, op |-> o2]>>] :
             pi \in 1..Len(Pools), a1 \in AliasSubset, a2 \in {1, 5}, o1 \in 1..17, o2 \in 1..17}
 Hists == {h \in Hist1 \cup Hist2 : Valid(h)}
@@ -243,7 +245,7 @@ AliasesAgree == row > 0 =>
   LET w == W(row) IN
   \A nm \in {"s0", "s1", "s2"} :
      LET s == Val(w, nm) IN
-     s # NoneV => (\A j \in 1..6 : s.es[j] = s.es[1]) /\ s.es[7] = Val(w, "s0").es[7]   \* `other' never changes
+     s # NoneV => (\A j \in 1..7 : s.es[j] = s.es[1]) /\ s.es[8] = Val(w, "s0").es[8]   \* `other' never changes
 CellTyped == row > 0 => CellsTyped(RunOf(row).st)
 AssignYieldsStored == row > 0 =>
   LET w == W(row) IN
